@@ -334,6 +334,7 @@ func (ipv6cp *IPV6CPStateMachine) receiveConfigureRequest(pkt *LCPPacket) error 
 		}
 	case IPV6CPStateAckRcvd:
 		if respCode == LCPCodeConfigAck {
+			ipv6cp.stopTimer()
 			ipv6cp.setState(IPV6CPStateOpened)
 		}
 	case IPV6CPStateAckSent:
@@ -428,8 +429,8 @@ func (ipv6cp *IPV6CPStateMachine) receiveConfigureAck(pkt *LCPPacket) error {
 		return nil
 	}
 
-	ipv6cp.stopTimer()
-
+	// The restart timer keeps running while the automaton waits for the peer (RFC 1661 4.4);
+	// it is stopped only on entering a state without a timer
 	switch ipv6cp.state {
 	case IPV6CPStateClosed, IPV6CPStateStopped:
 		ipv6cp.sendTerminateAck(pkt.Identifier)
@@ -441,6 +442,7 @@ func (ipv6cp *IPV6CPStateMachine) receiveConfigureAck(pkt *LCPPacket) error {
 		ipv6cp.setState(IPV6CPStateReqSent)
 	case IPV6CPStateAckSent:
 		ipv6cp.initializeRestartCount()
+		ipv6cp.stopTimer()
 		ipv6cp.setState(IPV6CPStateOpened)
 	case IPV6CPStateOpened:
 		ipv6cp.sendConfigureRequest()
@@ -455,8 +457,6 @@ func (ipv6cp *IPV6CPStateMachine) receiveConfigureNak(pkt *LCPPacket) error {
 	if pkt.Identifier != ipv6cp.lastIdentifier {
 		return nil
 	}
-
-	ipv6cp.stopTimer()
 
 	// Process NAK options
 	opts, _ := ParseLCPOptions(pkt.Data)
@@ -493,8 +493,6 @@ func (ipv6cp *IPV6CPStateMachine) receiveConfigureReject(pkt *LCPPacket) error {
 		return nil
 	}
 
-	ipv6cp.stopTimer()
-
 	switch ipv6cp.state {
 	case IPV6CPStateClosed, IPV6CPStateStopped:
 		ipv6cp.sendTerminateAck(pkt.Identifier)
@@ -514,16 +512,17 @@ func (ipv6cp *IPV6CPStateMachine) receiveConfigureReject(pkt *LCPPacket) error {
 
 // receiveTerminateRequest handles incoming Terminate-Request
 func (ipv6cp *IPV6CPStateMachine) receiveTerminateRequest(pkt *LCPPacket) error {
-	ipv6cp.stopTimer()
-
 	switch ipv6cp.state {
 	case IPV6CPStateClosed, IPV6CPStateStopped, IPV6CPStateClosing, IPV6CPStateStopping:
 		ipv6cp.sendTerminateAck(pkt.Identifier)
 	case IPV6CPStateReqSent, IPV6CPStateAckRcvd, IPV6CPStateAckSent:
+		ipv6cp.stopTimer()
 		ipv6cp.sendTerminateAck(pkt.Identifier)
 		ipv6cp.setState(IPV6CPStateStopped)
 	case IPV6CPStateOpened:
+		// Zero-Restart-Count: wait one restart period, then timeout finishes in Stopped
 		ipv6cp.zeroRestartCount()
+		ipv6cp.startTimer()
 		ipv6cp.sendTerminateAck(pkt.Identifier)
 		ipv6cp.setState(IPV6CPStateStopping)
 	}
@@ -533,12 +532,12 @@ func (ipv6cp *IPV6CPStateMachine) receiveTerminateRequest(pkt *LCPPacket) error 
 
 // receiveTerminateAck handles incoming Terminate-Ack
 func (ipv6cp *IPV6CPStateMachine) receiveTerminateAck(pkt *LCPPacket) error {
-	ipv6cp.stopTimer()
-
 	switch ipv6cp.state {
 	case IPV6CPStateClosing:
+		ipv6cp.stopTimer()
 		ipv6cp.setState(IPV6CPStateClosed)
 	case IPV6CPStateStopping:
+		ipv6cp.stopTimer()
 		ipv6cp.setState(IPV6CPStateStopped)
 	case IPV6CPStateAckRcvd:
 		ipv6cp.setState(IPV6CPStateReqSent)
